@@ -34,7 +34,7 @@ def dec_jobs(tier, ops=DEC_OPS):
     base = {"P": P, "PB": PB, "LP": LP, "NS": 1, "NL": NL}
     two = {"P": P2, "PB": PB2, "LP": LP, "NS": 2, "NL": NL2}
     jobs = []
-    for op in ops:
+    for op in list(ops) + ["decInit"]:
         if op == "decWriteBlock":
             for ld in range(P + 1):
                 for ns in range(2):
@@ -70,6 +70,17 @@ def dec_spec(tier, ops, expl):
 
 
 def spec_C04(tier):
+    s = _spec_C04_buf(tier)
+    # the same relation at Decoder level (Write/WriteByte/WriteBlock/Flush with a working writer): the stream handed to
+    # the writer plus the pending output is the reference expansion, each byte once and in order
+    jobs, bounds = dcd_jobs(tier, ["dcdWriteByte", "dcdWrite", "dcdFlush", "dcdWriteBlock"], (0,), wf_modes=(1,))
+    s["jobs"] += jobs
+    s["bounds"]["Decoder level"] = bounds
+    s["reach"].update(DCD_REACH)
+    return s
+
+
+def _spec_C04_buf(tier):
     return dec_spec(tier, DEC_OPS, "inductive step for every DecoderBuffer operation: from an arbitrary state satisfying the invariant, one call with "
                     "arbitrary operands leaves Data' = drop(delta<=R, Data) ++ reference expansion, R' = R-delta, window addressable, invariant preserved; "
                     "Read/WriteTo hand out exactly Data[R:...]. Covers histories of any length by induction. Decoder-level interleavings: see C18/C06 harnesses.")
@@ -123,6 +134,25 @@ META["C15"] = {"level": "bounded model checking by induction: each ParserBuffer 
                         "len/cap, ReadAt/PeekAt/ByteAt at any int64 offset, Init with any int64 configuration) from an arbitrary state satisfying the representation "
                         "invariant; post-condition relative to the ghost reading Data[i] = stream byte Off+i, invariant re-established",
                "note": "bounds: see evidence.bounds (buffer and slice sizes, reader calls). " + TRUST}
+
+DLEVEL = ("bounded model checking by induction over Decoder states: one Decoder call of the real code from an ARBITRARY DecoderBuffer state satisfying the representation invariant, "
+          "with a writer stub whose short writes and errors are symbolic choices; the relation (bytes accepted by the writer) ++ Data[R:] = reference expansion is shown to be preserved, "
+          "which covers every interleaving of calls. ")
+META.update({
+    "C06": {"level": DLEVEL + "Termination: every path of every call must end within a work bound derived from the sizes (writer calls, loop-head visits, SSA steps); a path that exceeds it is a "
+                              "non-termination counterexample, confirmed natively under a watchdog.", "note": "bounds: see evidence.bounds. " + TRUST},
+    "C07": {"level": DLEVEL + "Acceptance: a block assumed well-formed for the window at the current stream offset must be consumed completely with a nil error by a Decoder with a working writer. "
+                              "One recorded finding (KNOWN_FINDINGS.json, KF-C07-oversize) is excluded by an assumption and re-confirmed by witness replay on every run.",
+            "note": "bounds: see evidence.bounds; well-formedness is assumed (that parsers emit only such streams is C02). " + TRUST},
+    "C18": {"level": DLEVEL + "Faults: up to two writer faults per call at any writer invocation (0..len-1 bytes accepted, failing empty writes); the returned error is the writer's, accepted bytes are the "
+                              "next bytes of the expansion, (n,k,l) identify what was consumed, Flush with nil error leaves nothing pending.", "note": "bounds: see evidence.bounds. " + TRUST},
+    "C08": {"level": "bounded model checking: (1) inductive step of WrappedParser.Parse from an arbitrary hash-parser state with a reader that chunks arbitrarily, may return data with io.EOF and may "
+                     "fail at any call, against the ghost relation delivered ++ Data[W:] ++ future reads = stream; (2) bounded history: two fresh wrapped parsers over the same symbolic stream with "
+                     "different chunkings are driven to io.EOF and must emit identical blocks that expand to the stream", "note": "bounds: see evidence.bounds. " + TRUST},
+    "C10": {"level": "bounded model checking: Segments/scanLCP executed on symbolic lcp arrays (superset of all texts' tables up to the length bound) and on symbolic texts with reference sa/lcp; "
+                     "the solver decides range, membership, completeness/uniqueness for every pair, nesting order and absence of panics for all values",
+            "note": "bounds: see evidence.bounds (array/text length). " + TRUST},
+})
 
 NOT_APPLICABLE = {}
 
@@ -277,7 +307,9 @@ def dcd_jobs(tier, ops, wfs, wf_modes=(0, 1)):
                             jobs.append(J("%s-wf%d-WF%d-ld%d-ns%d" % (op, wf, WF, ld, ns), "zzH_" + op, params=pp, nonterm=True, max_steps=400000, loop_cap=200))
                 else:
                     jobs.append(J("%s-WF%d-ld%d" % (op, WF, ld), "zzH_" + op, params=dict(base, WF=WF, ld=ld), nonterm=True, max_steps=400000, loop_cap=200))
+    jobs.append(J("decInit", "zzH_decInit", params=base))
     bounds = {"len(Data), cap(Data)": "0..%d" % P, "BufferSize": "1..%d" % PB, "WindowSize": "0..BufferSize-1", "R": "0..len(Data)", "Off": "len(Data)..2^40",
+              "Init (base case)": "DecoderConfig fields over all of int64, fresh and used buffers",
               "Write slice": "0..%d bytes" % LP, "block": "0..%d sequences, 0..%d literals; Seq fields over all of uint32 (wf=0) or well-formed for the window with MatchLen <= %d (wf=1); "
               "two sequences only for the smaller geometry %s" % (NS, NL, MM, P2),
               "writer": "accepts any k <= len(p) per call, error iff k < len(p); fault budgets %s per Decoder call" % (list(wfs),),
@@ -312,3 +344,53 @@ def spec_C18(tier):
                            "are exactly the next bytes of the reference expansion (ghost relation accepted ++ Data[R:] = expansion is inductive), k and l identify exactly what was "
                            "consumed so a retry of Sequences[k:], Literals[l:] continues the same stream; Flush with nil error leaves nothing pending",
             "reach": DCD_REACH}
+
+
+# ---------------------------------------------------------------- Wrap (C08)
+
+def spec_C08(tier):
+    L, PB, BS, RD, N, PBc = (3, 4, 3, 2, 5, 4) if tier == "quick" else (4, 5, 4, 3, 7, 4)
+    jobs = []
+    for il, hb in ((2, 0), (3, 0)):
+        for ld in range(L + 1):
+            for w in range(ld + 1):
+                jobs.append(J("wrapStep-il%d-ld%d-w%d" % (il, ld, w), "zzH_wrapStep",
+                              params={"L": L, "ld": ld, "w": w, "PB": PB, "BS": BS, "RD": RD, "inputLen": il, "hashBits": hb}, loop_cap=400))
+    for n in range(N + 1):
+        jobs.append(J("wrapChunk-N%d" % n, "zzH_wrapChunk", params={"N": N, "N_": n, "PB": PBc, "BS": 3, "inputLen": 2, "hashBits": 0}, loop_cap=400))
+    for j in jobs:
+        if j["entry"] == "zzH_wrapChunk":
+            j["params"]["N"] = j["params"].pop("N_")  # one job per exact stream length
+    return {"jobs": jobs,
+            "bounds": {"wrapStep": "one WrappedParser.Parse from an arbitrary hash-parser state: len(Data) 0..%d, W 0..len, BufferSize len..%d, ShrinkSize 0..BufferSize-1, BlockSize 1..%d, "
+                                   "arbitrary hash table (InputLen 2 and 3, HashBits 0), both flag values; reader: up to %d calls, each any k <= len(p) fresh arbitrary bytes with nil / io.EOF / "
+                                   "failure, then (0, io.EOF)" % (L, PB, BS, RD),
+                       "wrapChunk": "fresh HP parsers (InputLen 2, HashBits 0), stream of exactly 0..%d arbitrary bytes, BufferSize 1..%d, ShrinkSize 0..BufferSize-1, WindowSize 1..%d, BlockSize 1..3; "
+                                    "reader a fills every request, reader b returns any 1..len(p) bytes per call and may deliver the last chunk together with io.EOF; run to EOF, then Parse once more" % (N, PBc, PBc + 1)},
+            "assumptions": PARSE_ASSUME[:1] + ["io.Reader contract: k <= len(p) and (k >= 1 or err != nil)", "wrapStep is inductive over the ghost relation delivered ++ Data[W:] ++ future reads = reader's stream; "
+                                               "correctness of the inner Parse for arbitrary tables is C01-C03", "64-bit int, go1.23.5 append growth"],
+            "outside": ["streams longer than the bound in the chunking comparison", "parsers other than HP under Wrap (the Wrap loop only uses the Parser interface; the other parsers' Shrink/ReadFrom are the same ParserBuffer code plus their own re-basing, covered by C01/C13 harnesses)",
+                        "a transient reader error delivered together with data is swallowed by wrap.go when k > 0: the property does not demand that it is surfaced"],
+            "explanation": "no loss, no duplication, error only after everything read was delivered, error is the reader's, EOF repeated, block sequence independent of chunking",
+            "reach": {"zzH_wrapStep": ["end", "err", "refilled"], "zzH_wrapChunk": ["end"]}}
+
+
+# ---------------------------------------------------------------- suffix.Segments (C10)
+
+def spec_C10(tier):
+    NA, NT = (6, 5) if tier == "quick" else (8, 7)
+    jobs = []
+    for mode, N in (("segArray", NA), ("segText", NT)):
+        for n in range(N + 1):
+            for mn in range(n + 2):
+                for mx in range(mn, n + 3):
+                    jobs.append(J("%s-n%d-min%d-max%d" % (mode, n, mn, mx), "zzH_" + mode, pkg="suffix", params={"n": n, "minLen": mn, "mx": mx}))
+    return {"jobs": jobs,
+            "bounds": {"array mode": "every lcp array of length 0..%d with lcp[0] = 0 and values 0..n-1 (a superset of the lcp tables of all texts of that length), sa = distinct labels" % NA,
+                       "text mode": "every text of 0..%d arbitrary bytes; suffix array by a reference insertion sort and lcp by naive comparison (one path per order type of the bytes)" % NT,
+                       "minLen, maxLen": "0 <= minLen <= maxLen, each from {0..n+1, MaxInt32}; lcp values are <= n-1, so larger bounds behave like n+1"},
+            "assumptions": ["callback does not permute the segment (the property is about which suffixes are reported; OSAP's sorting callback is exercised in C11)", "64-bit int"],
+            "outside": ["texts / arrays longer than the bound", "minLen < 0 or maxLen > MaxInt32 (documented panics)"],
+            "explanation": "Segments is executed on symbolic lcp values; the callback log is compared with the interval structure: range of m, members share m bytes "
+                           "(all lcp inside >= m), every pair with common prefix c >= minLen in exactly one callback with m = min(c, maxLen), nested groups first, no panic (n = 0 included)",
+            "reach": {"zzH_segArray": ["end", "nested"], "zzH_segText": ["end", "nested"]}}
